@@ -3,10 +3,14 @@ package world
 import (
 	gocontext "context"
 	"errors"
+	"io"
+	"net"
 	"net/http"
+	"os"
 	"reflect"
 	"sort"
 	"strings"
+	"syscall"
 
 	"github.com/charmbracelet/log"
 	"github.com/flamego/flamego"
@@ -67,11 +71,20 @@ const (
 	PvMap       // a map value (unhashable)
 	PvFunc      // a func value (unhashable, not comparable)
 	PvNilPtrErr // a typed nil pointer implementing error whose Error() dereferences it
+	PvBadMapTo  // the injector's own panic: MapTo with a pointer to a non-interface
+	PvEOF
+	PvCtxCanceled
+	PvCtxDeadline
+	PvEPIPE // an error wrapping syscall.EPIPE, as a failed write to some backend yields
+	PvConnReset
+	PvNotExist
+	PvNetClosed
+	PvHandlerTimeout
 	pvMax
 )
 
 // PanicKindNames for reports.
-var PanicKindNames = []string{"string", "error", "runtime:nil-map", "runtime:index", "struct", "http.ErrAbortHandler", "wrapped-error", "int", "slice-typed-error", "map", "func", "error-with-panicking-Error()"}
+var PanicKindNames = []string{"string", "error", "runtime:nil-map", "runtime:index", "struct", "http.ErrAbortHandler", "wrapped-error", "int", "slice-typed-error", "map", "func", "error-with-panicking-Error()", "inject.InterfaceOf-panic", "io.EOF", "context.Canceled", "context.DeadlineExceeded", "wrapped-EPIPE", "wrapped-ECONNRESET", "fs.ErrNotExist", "net.ErrClosed", "http.ErrHandlerTimeout"}
 
 type errList []string
 
@@ -98,8 +111,29 @@ func (w *wrappedErr) Unwrap() error { return w.err }
 // handler at pos while serving request name (where the value can carry text).
 func PanicToken(name string, pos int) string { return "PANICTOK-" + name + "-" + itoa(pos) + "-X" }
 
-func raise(kind int, tok string) {
+func raise(kind int, tok string, c flamego.Context) {
 	switch kind {
+	case PvBadMapTo:
+		if c != nil {
+			c.MapTo(&panicStruct{Tok: tok}, (*panicStruct)(nil)) // panics inside inject.InterfaceOf
+		}
+		panic(tok)
+	case PvEOF:
+		panic(io.EOF)
+	case PvCtxCanceled:
+		panic(gocontext.Canceled)
+	case PvCtxDeadline:
+		panic(gocontext.DeadlineExceeded)
+	case PvEPIPE:
+		panic(&wrappedErr{msg: tok, err: &net.OpError{Op: "write", Net: "tcp", Err: os.NewSyscallError("write", syscall.EPIPE)}})
+	case PvConnReset:
+		panic(&wrappedErr{msg: tok, err: &net.OpError{Op: "read", Net: "tcp", Err: os.NewSyscallError("read", syscall.ECONNRESET)}})
+	case PvNotExist:
+		panic(&wrappedErr{msg: tok, err: os.ErrNotExist})
+	case PvNetClosed:
+		panic(net.ErrClosed)
+	case PvHandlerTimeout:
+		panic(http.ErrHandlerTimeout)
 	case PvString:
 		panic(tok)
 	case PvError:
@@ -262,6 +296,10 @@ func (h *SimH) do(q *Req, c flamego.Context, rw http.ResponseWriter, r *http.Req
 				q.Note("apply:tok=" + string(dst.T) + ",req=" + rq)
 			}
 		}
+	case OpSetCL:
+		if rw != nil {
+			rw.Header().Set("Content-Length", "4096")
+		}
 	case OpSeePath:
 		if r != nil {
 			q.Note("sees=" + r.Method + " " + r.URL.Path + "?" + r.URL.RawQuery)
@@ -362,7 +400,7 @@ func (h *SimH) do(q *Req, c flamego.Context, rw http.ResponseWriter, r *http.Req
 		}
 	case OpPanic:
 		q.ev(EvRaise, h.HID, int(a.A), "")
-		raise(int(a.A), PanicToken(q.Name, h.Pos))
+		raise(int(a.A), PanicToken(q.Name, h.Pos), c)
 	case OpEcho:
 		if rw != nil {
 			q.ev(EvAttempt, h.HID, int(a.Op), "")
